@@ -19,14 +19,22 @@ structure CrdtOps (σ ω : Type) where
   /-- model of `serde_json::to_string` + `from_str`: text (or error) and restored value -/
   persist : Option (σ → (Except String String) × Option σ) := none
   persistOp : Option (ω → (Except String String) × Option ω) := none
-  /-- specification fields evaluated on the knowledge set (ops known, newest first) -/
-  spec : List ω → String := fun _ => ""
+  /-- specification fields evaluated on the whole log `U` (every op defined so far) and the replica's knowledge `K` -/
+  spec : List ω → List ω → String := fun _ _ => ""
+  /-- delivery discipline under which `spec` is claimed: may `op` be applied by a replica knowing `K` (log `U`)? -/
+  ok : List ω → List ω → ω → Bool := fun _ _ _ => true
 
 structure MState (σ ω : Type) where
   reps : List σ
   know : List (List String)
   ops : List (String × ω)
   snaps : List (String × σ × List String)
+  /-- replicas whose history left the claimed region (out-of-discipline delivery, reset_remove): no spec printed -/
+  taint : List Bool
+  snapTaint : List (String × Bool)
+  /-- replicas that executed reset_remove or merged from one: excluded from the equal-knowledge oracle -/
+  forgot : List Bool
+  snapForgot : List (String × Bool)
 
 def lookup {β : Type} (k : String) : List (String × β) → Option β
   | [] => none
@@ -51,7 +59,7 @@ namespace MState
 variable {σ ω : Type}
 
 def new (T : CrdtOps σ ω) (n : Nat) : MState σ ω :=
-  ⟨List.replicate n T.init, List.replicate n [], [], []⟩
+  ⟨List.replicate n T.init, List.replicate n [], [], [], List.replicate n false, [], List.replicate n false, []⟩
 
 def rep (m : MState σ ω) (t : String) : Option Nat :=
   match t.toNat? with
@@ -62,6 +70,12 @@ def setRep (m : MState σ ω) (r : Nat) (s : σ) : MState σ ω := { m with reps
 def learn (m : MState σ ω) (r : Nat) (names : List String) : MState σ ω :=
   { m with know := m.know.set r (unionSorted (m.know.getD r []) names) }
 
+def setTaint (m : MState σ ω) (r : Nat) (b : Bool) : MState σ ω :=
+  { m with taint := m.taint.set r (m.taint.getD r false || b) }
+
+def setForgot (m : MState σ ω) (r : Nat) (b : Bool) : MState σ ω :=
+  { m with forgot := m.forgot.set r (m.forgot.getD r false || b) }
+
 def knownOps (m : MState σ ω) (r : Nat) : List ω :=
   (m.know.getD r []).filterMap (fun n => lookup n m.ops)
 
@@ -70,7 +84,7 @@ def obsRep (T : CrdtOps σ ω) (m : MState σ ω) (r : Nat) : String :=
   match m.reps[r]? with
   | none => "badrep"
   | some s =>
-    let sp := T.spec (m.knownOps r)
+    let sp := if m.taint.getD r false then "" else T.spec (m.ops.map (·.2)) (m.knownOps r)
     if sp = "" then T.obs s else T.obs s ++ " | " ++ sp
 
 def exec (T : CrdtOps σ ω) (m : MState σ ω) (toks : List String) : MState σ ω × String :=
@@ -94,7 +108,8 @@ def exec (T : CrdtOps σ ω) (m : MState σ ω) (toks : List String) : MState σ
     | some r =>
       match lookup name m.ops, m.reps[r]? with
       | some op, some s =>
-        let m' := (m.setRep r (T.apply s op)).learn r [name]
+        let okd := T.ok (m.ops.map (·.2)) (m.knownOps r) op
+        let m' := ((m.setRep r (T.apply s op)).learn r [name]).setTaint r (!okd)
         (m', obsRep T m' r)
       | _, _ => (m, "skip")
   | ["M", rs, rs2] =>
@@ -102,7 +117,7 @@ def exec (T : CrdtOps σ ω) (m : MState σ ω) (toks : List String) : MState σ
     | some r, some r2 =>
       match T.merge, m.reps[r]?, m.reps[r2]? with
       | some mg, some s, some s2 =>
-        let m' := (m.setRep r (mg s s2)).learn r (m.know.getD r2 [])
+        let m' := ((m.setRep r (mg s s2)).learn r (m.know.getD r2 [])).setTaint r (m.taint.getD r2 false) |>.setForgot r (m.forgot.getD r2 false)
         (m', obsRep T m' r)
       | _, _, _ => (m, "nomerge")
     | _, _ => bad
@@ -111,7 +126,9 @@ def exec (T : CrdtOps σ ω) (m : MState σ ω) (toks : List String) : MState σ
     | none => bad
     | some r =>
       match m.reps[r]? with
-      | some s => ({ m with snaps := setKey name (s, m.know.getD r []) m.snaps }, "ok")
+      | some s => ({ m with snaps := setKey name (s, m.know.getD r []) m.snaps,
+                             snapTaint := setKey name (m.taint.getD r false) m.snapTaint,
+                             snapForgot := setKey name (m.forgot.getD r false) m.snapForgot }, "ok")
       | none => bad
   | ["MS", rs, name] =>
     match m.rep rs with
@@ -122,7 +139,7 @@ def exec (T : CrdtOps σ ω) (m : MState σ ω) (toks : List String) : MState σ
       | some (s2, k2) =>
         match T.merge, m.reps[r]? with
         | some mg, some s =>
-          let m' := (m.setRep r (mg s s2)).learn r k2
+          let m' := ((m.setRep r (mg s s2)).learn r k2).setTaint r ((lookup name m.snapTaint).getD false) |>.setForgot r ((lookup name m.snapForgot).getD false)
           (m', obsRep T m' r)
         | _, _ => (m, "nomerge")
   | ["V", rs, name] =>
@@ -151,7 +168,7 @@ def exec (T : CrdtOps σ ω) (m : MState σ ω) (toks : List String) : MState σ
     | some r, some c =>
       match T.resetRemove, m.reps[r]? with
       | some rr, some s =>
-        let m' := (m.setRep r (rr s c)).learn r ["!rr" ++ toString r ++ "." ++ toString (m.know.getD r []).length]
+        let m' := ((m.setRep r (rr s c)).setTaint r true).setForgot r true
         (m', T.obs (rr s c))
       | _, _ => (m, "norr")
     | _, _ => bad
@@ -207,9 +224,10 @@ def exec (T : CrdtOps σ ω) (m : MState σ ω) (toks : List String) : MState σ
     -- convergence oracle evaluated on the model (always `ok` where the theorems apply)
     let reps := (List.range m.reps.length).filterMap (fun i =>
       match m.reps[i]? with
-      | some s => some ("r" ++ toString i, T.obs s, m.know.getD i [])
+      | some s => if m.forgot.getD i false then none else some ("r" ++ toString i, T.obs s, m.know.getD i [])
       | none => none)
-    let snaps := (m.snaps.mergeSort (fun a b => a.1 ≤ b.1)).map (fun (n, s, k) => ("s" ++ n, T.obs s, k))
+    let snaps := (m.snaps.mergeSort (fun a b => a.1 ≤ b.1)).filterMap (fun (n, s, k) =>
+      if (lookup n m.snapForgot).getD false then none else some ("s" ++ n, T.obs s, k))
     let all := reps ++ snaps
     let rec go (l : List (String × String × List String)) (pairs : Nat) : String :=
       match l with
